@@ -246,3 +246,25 @@ def check(prop, tier):
     return vlib.conclude(prop, tier, "model_checking", cov, t0, viols, assumptions,
                          lambda v: {"family": "modload", "property": prop, "case": v["case"],
                                     "violation": {k: v[k] for k in ("prop", "what", "m", "at", "id", "mode", "detail")}})
+
+
+def replay(prop, path):
+    """Re-executes the recorded case on the real code and re-evaluates it with the monitor."""
+    with open(path) as f:
+        r = json.load(f)
+    case = r.get("case")
+    if not case:
+        raise Inconclusive("replay file has no case")
+    wd = vlib.scratch("replay-")
+    binary = vlib.build_test("", wd, name="dawn")
+    traces = vlib.run_harness(binary, "TestVerifModLoad", [case], wd)
+    traces = [t for t in traces if not t.get("stall")]
+    viols, n = vlib.eval_traces(SPEC, "ModLoadTraceP", "ModLoadTraceP.cfg", [to_p_line(t) for t in traces], shards=1)
+    got = [(x["prop"], x["what"]) for v in viols for x in v["viol"]]
+    print("replayed %d execution(s); monitor reports: %s" % (len(traces), got or "no violation"))
+    want = (r["violation"]["prop"], r["violation"]["what"])
+    if want in got:
+        print("VIOLATION property=%s replay=%s" % (prop, path))
+        return 1
+    print("the recorded violation did not reproduce (schedule-dependent cases may need several runs)")
+    return 0
